@@ -46,7 +46,10 @@ Inductive iop :=
 | IDetach                                                                          (* innermost r.detach() *)
 | IFetchPage (k : key) (gz : bool)              (* fetch_page(k); gz = response().need_gzip() of this request *)
 | IStorePage (k : key) (data : list N) (secs : Z)                                   (* store_page(k,secs); data = copied_data() *)
-| INewRequest.                                                                     (* next request: fresh cache_interface *)
+| INewRequest                                                                      (* next request: fresh cache_interface *)
+| IStoreFail (k : key) (trigs : list key) (secs : Z) (notriggers : bool).
+    (* store / store_frame of a value that cannot be copied into the shared segment: the triggers are handed to
+       add_trigger as usual (that happens before the back end is called), the back end removes the key (FDropBefore) *)
 
 Inductive iout :=
 | IHit (v : list N)
@@ -88,6 +91,9 @@ Definition i_step (now : Z) (o : iop) (st : istate) : Z * istate * iout :=
       let st1 := i_add k st in
       (now, i_set_cache st1 (store now (page_key (i_gz st) k) data (i_page st1) (deadtime now secs) None FNone [] (i_cache st1)), INone)
   | INewRequest => (now, mkI (i_cache st) [] [] false, INone)
+  | IStoreFail k trigs secs notr =>
+      let st1 := if notr then st else i_add k (i_add_all trigs st) in
+      (now, i_set_cache st1 (store now k [] trigs (deadtime now secs) None FDropBefore [] (i_cache st1)), INone)
   end.
 
 Definition ianswer := (iout * (N * N))%type.
@@ -112,6 +118,7 @@ Definition i_base_op (now : Z) (o : iop) (st : istate) : op :=
   | ITick n => Tick n
   | IFetchPage k gz => Fetch (page_key gz k)
   | IStorePage k data secs => Store (page_key (i_gz st) k) data (k :: i_page st) (deadtime now secs) None FNone []
+  | IStoreFail k trigs secs _ => Store k [] trigs (deadtime now secs) None FDropBefore []
   | _ => Tick now
   end.
 
@@ -122,6 +129,7 @@ Definition i_added (now : Z) (o : iop) (st : istate) : list key :=
   | IFetch k false => match snd (fetch now k (i_cache st)) with OHit _ trs _ _ => rev trs | _ => [] end
   | IAdd t => [t]
   | IStorePage k _ _ => [k]
+  | IStoreFail k trigs _ false => k :: rev trigs
   | _ => []
   end.
 
